@@ -135,6 +135,14 @@ Theorem C13_join_split_inverse : forall (Ch : Type) (ceqb : Ch -> Ch -> bool),
 Proof. exact join_split_inverse. Qed.
 Print Assumptions C13_join_split_inverse.
 
+(* words: no word is empty or contains whitespace; the words concatenate, in order, to the string
+   with its whitespace removed (that runs are not cut in two is compared by correspondence only) *)
+Theorem C13_words_spec : forall (Ch : Type) (is_space : Ch -> bool) (s : list Ch),
+  Forall (wordy is_space) (sl_words is_space s) /\
+  concat (sl_words is_space s) = filter (fun c => negb (is_space c)) s.
+Proof. exact words_spec. Qed.
+Print Assumptions C13_words_spec.
+
 (* xs ** ys in row-major order: element i*len(ys)+j is [xs[i], ys[j]] *)
 Theorem C13_cartesian_product_order : forall (A : Type) (xs ys : list A) d,
   length (sl_cartesian [xs; ys]) = length xs * length ys /\
